@@ -42,6 +42,7 @@ def main():
         shutil.rmtree(keep, ignore_errors=True)
         # put the translated files back in step with the restored sources
         subprocess.run([sys.executable, os.path.join(VERIF, "tools", "rust2lean.py")], capture_output=True)
+        subprocess.run([sys.executable, os.path.join(VERIF, "tools", "rust2lean_imp.py")], capture_output=True)
     print(json.dumps({"patch": patch, "tier": tier, "caught_by": [p for p, v in out.items() if v["rc"] == 1], "results": out}))
     return 0
 if __name__ == "__main__":
